@@ -107,7 +107,26 @@ class OptV:
         return f"OptV<{self.isnone}?None:{self.val!r}>"
 
 
+class IteV(OptV):
+    """Lazy choice between two values: `a` when cond holds, else `b` (decided only when inspected).
+    Sub-class of OptV so that every place that forces lazily optional values handles it."""
+    __slots__ = ("cond", "a", "b")
+
+    def __init__(self, cond, a, b):
+        self.cond, self.a, self.b = cond, a, b
+        self.isnone, self.val = None, None
+
+
 def isnone(v):
+    if isinstance(v, IteV):
+        na, nb = isnone(v.a), isnone(v.b)
+        na = z3.BoolVal(na) if isinstance(na, bool) else na
+        nb = z3.BoolVal(nb) if isinstance(nb, bool) else nb
+        return z3.If(v.cond, na, nb)
+    return _isnone(v)
+
+
+def _isnone(v):
     """None-ness of a value as python bool or z3 Bool."""
     if isinstance(v, OptV):
         return v.isnone
